@@ -25,6 +25,28 @@ def pred_n26(case, record, expected_text):
     return crash == 1 and "nil pointer dereference" in obs and bool(N26_RE.search(src) or N26_RE2.search(src))
 
 
+# C01-N27: a private name as the key of an object literal
+N27_RE = re.compile(r"[{,]\s*#[A-Za-z_$][\w$]*\s*:")
+
+
+def pred_n27(case, record, expected_text):
+    obs = record.get("obs", "")
+    m = re.match(r"crash=(\d+)", obs)
+    crash = int(m.group(1)) if m else 0
+    return crash == 8 and "Unknown expression type: *ast.PrivateIdentifier" in obs and bool(N27_RE.search(src_of(case)))
+
+
+# C01-N28: `#p in <operand> &&` / `||` without parentheses
+N28_RE = re.compile(r"#[A-Za-z_$][\w$]*\s+in\s+[^;(){},?:]*?(?:&&|\|\|)")
+
+
+def pred_n28(case, record, expected_text):
+    obs = record.get("obs", "")
+    m = re.match(r"crash=(\d+)", obs)
+    crash = int(m.group(1)) if m else 0
+    return crash == 8 and "Unknown expression type: *ast.PrivateIdentifier" in obs and bool(N28_RE.search(src_of(case)))
+
+
 def candidates(case):
     """source-level shrinking: drop a line, then drop a top-level ;-separated chunk"""
     src = src_of(case)
@@ -143,7 +165,9 @@ CFG = {
         "builtins, the parser and the lexer are covered only by the crash search, not by proof",
         "an instruction kind missing from the table makes the verifier skip the body (reported as coverage gap)",
     ],
-    "predicates": {"C01.continue_in_finally_of_labelled_block_inside_loop": pred_n26},
+    "predicates": {"C01.continue_in_finally_of_labelled_block_inside_loop": pred_n26,
+                   "C01.private_identifier_as_object_literal_key": pred_n27,
+                   "C01.private_in_as_left_operand_of_logical_operator": pred_n28},
     "manifest": {
         "text": ("translation validation, partial: a bytecode verifier (work-list abstract interpretation of operand-stack height, stack "
                  "locals, variadic markers and the try stack) is proved sound in Rocq against a small-step model of the VM's stack "
